@@ -49,6 +49,19 @@ impl Analysis<A> for ConstFold {
             let a = eg.add(A::Num(x));
             eg.union(&a, &eg.mk_identity_applied_id(i));
         }
+        // a simplification hook: x + 0 = x.  Unlike constant folding it unions the class - often the one `add` has just
+        // allocated - into a class that HAS parameters; the handle `add` returns must still denote the term
+        if !eg.is_alive(i) { return; }
+        for n in eg.enodes(i) {
+            if let A::Add(x, y) = &n {
+                for (keep, zero) in [(x, y), (y, x)] {
+                    if eg.is_alive(i) && *eg.analysis_data(zero.id) == Some(0) && *eg.analysis_data(keep.id) != Some(0) {
+                        let me = eg.mk_identity_applied_id(i);
+                        eg.union(&me, keep);
+                    }
+                }
+            }
+        }
     }
 }
 
@@ -320,6 +333,11 @@ const FIXED: &[(&str, &[&str], &str, bool, usize)] = &[
     ("(let $1 (add (mul (var $1) (add (var $2) 1)) (mul (var $2) (add (var $1) 1))) 2)", &["let-subst"], "manual", false, 1),
     ("(let $1 (add (mul (var $1) (add (var $2) 1)) (mul (var $2) (add (var $1) 1))) 2)", &["let-subst"], "manual", true, 1),
     ("(let $1 (sum $3 (add (mul (var $1) (add (var $3) 1)) (mul (var $3) (add (var $1) 1)))) (var $2))", &["let-subst", "let-sum"], "runner", false, 2),
+    // the modify hook (x + 0 = x) merges the class that add_expr has just allocated for the start term into the class of its
+    // left summand, which has parameters: the handle add_expr returns must still denote the start term (seeded C13m)
+    ("(add (var $1) 0)", &["comm-add"], "manual", false, 1),
+    ("(add (mul (var $1) (var $2)) 0)", &["comm-mul"], "runner", false, 1),
+    ("(mul (add (var $1) 0) (add 0 (var $2)))", &["comm-mul", "distr"], "manual", true, 1),
     // one pass whose effects CANCEL in the sums of the progress measure and allocate no class: comm-add gives the class of x+y a
     // symmetry (+1; its parent binds one of the two slots, so nothing is inherited), mul-1 unions two slot-free classes that have no constant (-1 live class, -1 symmetry): the pass has changed
     // the e-graph, apply_rewrites must say so and no run may stop as saturated after it (seeded C15k)
